@@ -125,6 +125,21 @@ class Conflict(collections.namedtuple("Conflict", ["state", "symbol", "actions"]
         ) + " vs ".join([str(a) for a in self.actions])
 
 
+class UnproductiveSymbol(collections.namedtuple("UnproductiveSymbol", ["symbol"])):
+    """UnproductiveSymbol reports a nonterminal that derives no string of terminals.
+
+    A production that mentions such a nonterminal can never be completed, so it
+    adds nothing to the language, but the generated parser would still shift
+    tokens along it and report the syntax error later than the first token that
+    no sentence can continue with.  It is reported together with the conflicts.
+    """
+
+    def __str__(self):
+        return "Nonterminal {} does not derive any string of terminals.".format(
+            self.symbol
+        )
+
+
 Shift = collections.namedtuple("Shift", ["state", "items"])
 Reduce = collections.namedtuple("Reduce", ["rule"])
 Accept = collections.namedtuple("Accept", [])
@@ -233,6 +248,24 @@ class Grammar(object):
             for symbol in production.rhs:
                 self.symbols.add(symbol)
         self.terminals = self.symbols - self.nonterminals
+
+    def _unproductive_nonterminals(self):
+        """Returns the nonterminals that do not derive any string of terminals.
+
+        A symbol is productive if it is a terminal, or if it is the left-hand side
+        of a production whose right-hand side symbols are all productive.
+        """
+        productive = set(self.terminals)
+        changed = True
+        while changed:
+            changed = False
+            for production in self.productions:
+                if production.lhs not in productive and all(
+                    symbol in productive for symbol in production.rhs
+                ):
+                    productive.add(production.lhs)
+                    changed = True
+        return self.nonterminals - productive - {START_PRIME}
 
     def _compute_seed_firsts(self):
         """Computes FIRST (ALSU p221) for all terminal and nonterminal symbols.
@@ -538,6 +571,11 @@ class Grammar(object):
                             )
                         )
                     action[i][END_OF_INPUT] = new_action
+        # A nonterminal that derives nothing is a mistake in the grammar; the
+        # tables built from it would also report errors late (the parser follows
+        # productions that can never be completed).  Report it with the conflicts.
+        for symbol in self._unproductive_nonterminals():
+            conflicts.add(UnproductiveSymbol(symbol))
         trimmed_goto = collections.defaultdict(dict)
         for k in goto:
             for l in goto[k]:
@@ -578,7 +616,8 @@ class Parser(object):
       expected: A table of terminal symbols that are expected (that is, that
         have a non-Error action) for each state.  This can be used to provide
         more helpful error messages for parse errors.
-      conflicts: A set of unresolved conflicts found during table generation.
+      conflicts: A set of unresolved conflicts (and unproductive nonterminals)
+        found during table generation.
       terminals: A set of terminal symbols in the grammar.
       nonterminals: A set of nonterminal symbols in the grammar.
       productions: A list of productions in the grammar.
